@@ -663,6 +663,31 @@ def gm_query_replay(kind):
                     return (f'{meth} of the row {Qw[k].tolist()} is {got[k]!r} when the rows are held in a {np.dtype(narrow).name} '
                             f'{"DataFrame" if kind == "float32-frame" else "array"} and {want[k]!r} when the same numbers are held as float64')
         return None
+    if kind in ('single-column-gaussian', 'single-column-gamma'):
+        # a ONE-column Gaussian copula: the density is the standard normal density at the normal score (NOT the marginal's density), saturating
+        # at phi(norm.ppf(EPSILON)) far outside the training range; the CDF is Phi(score)
+        from scipy.stats import norm
+        from copulas.univariate import GammaUnivariate
+        x = rs.normal(10.0, 4.0, 200) if kind == 'single-column-gaussian' else rs.gamma(3.0, 2.0, 200) + 1
+        X = pd.DataFrame({'only': x})
+        m = GaussianMultivariate(distribution=GaussianUnivariate if kind == 'single-column-gaussian' else GammaUnivariate, random_state=1)
+        with np.errstate(all='ignore'):
+            m.fit(X)
+            q = np.array([x.min() - 50.0, np.median(x), np.quantile(x, 0.9), x.max() + 80.0, x[3]])
+            z = norm.ppf(np.clip(np.asarray(m.univariates[0].cumulative_distribution(q), dtype=float), 2.0 ** -23, 1 - 2.0 ** -23))
+            c = float(np.asarray(m.correlation).ravel()[0])
+            want = norm.pdf(z / np.sqrt(c)) / np.sqrt(c)
+            for arg, how in ((pd.DataFrame({'only': q}), 'DataFrame'), (q.reshape(-1, 1), 'array')):
+                got = np.asarray(m.probability_density(arg), dtype=float)
+                lg = np.asarray(m.log_probability_density(arg), dtype=float)
+                if got.shape != want.shape or not np.allclose(got, want, rtol=1e-9, atol=1e-300) or not np.allclose(lg, np.log(want), rtol=1e-9, atol=1e-9):
+                    k = int(np.argmax(np.abs(got - want)))
+                    return (f'one-column model ({kind}): probability_density({q[k]!r}) [{how}] = {got[k]!r}, the normal density at the normal score is {want[k]!r}')
+                cd = np.asarray(m.cumulative_distribution(arg), dtype=float)
+                if not np.allclose(cd, norm.cdf(z / np.sqrt(c)), rtol=0, atol=1e-6):
+                    k = int(np.argmax(np.abs(cd - norm.cdf(z / np.sqrt(c)))))
+                    return f'one-column model ({kind}): cumulative_distribution({q[k]!r}) [{how}] = {cd[k]!r}, Phi(score) = {float(norm.cdf(z[k] / np.sqrt(c)))!r}'
+        return None
     if kind == 'cdf-then-pdf-near-collinear':
         a = rs.normal(size=200)
         X = pd.DataFrame({'a': a, 'b': 2 * a + 1e-6 * rs.normal(size=200), 'c': rs.normal(size=200)})
@@ -687,7 +712,7 @@ def gm_query_replay(kind):
 
 
 def gm_query(ctx):
-    for kind in ('float32-array', 'float16-array', 'float32-frame', 'cdf-then-pdf-near-collinear'):
+    for kind in ('float32-array', 'float16-array', 'float32-frame', 'cdf-then-pdf-near-collinear', 'single-column-gaussian', 'single-column-gamma'):
         ctx.case(('gm-query', kind), {'history': kind})
         try:
             why = gm_query_replay(kind)
@@ -875,3 +900,403 @@ def biv_integer_theta(ctx, methods):
                 ctx.violation(f'search:integer-theta:{meth}:{fam}', why,
                               {'family': fam, 'method': meth, 'repro': ('from vf.extra_oracles2 import biv_integer_theta_replay\n'
                                                                         f'why = biv_integer_theta_replay({fam!r}, {meth!r})\nprint(why)\nassert why is None\n')})
+
+
+# ======================================================================================================================
+# round 5 - univariates: aliases, long vectors, copies
+# ======================================================================================================================
+def _uni_make(cname):
+    from copulas import univariate as U
+    cls = getattr(U, cname.split('(')[0])
+    kw = eval('dict(' + cname.split('(', 1)[1][:-1] + ')') if '(' in cname else {}
+    return cls, kw
+
+
+def uni_alias_replay(cname, state):
+    """pdf / cdf / ppf are SHORTCUTS: in every state of the object (fitted, degenerate after a constant fit, rebuilt by from_dict, re-fitted
+    from constant to non-constant) they answer exactly what the long names answer"""
+    from copulas import univariate as U
+    cls, kw = _uni_make(cname)
+    rs = np.random.RandomState(14)
+    data = rs.gamma(3.0, 2.0, 60) + 1.0
+    const = np.full(9, 4.25)
+    m = cls(**kw)
+    with np.errstate(all='ignore'):
+        if state == 'fitted':
+            m.fit(data)
+        elif state == 'constant':
+            m.fit(const)
+        elif state == 'constant-then-data':
+            m.fit(const)
+            m.fit(data)
+        elif state == 'data-then-constant':
+            m.fit(data)
+            m.fit(const)
+        elif state == 'from_dict-constant':
+            m.fit(const)
+            m = U.Univariate.from_dict(m.to_dict())
+        elif state == 'from_dict-fitted':
+            m.fit(data)
+            m = U.Univariate.from_dict(m.to_dict())
+        P = np.array([0.5, 2.0, 4.25, 6.0, 11.0])
+        Q = np.array([0.0, 0.05, 0.5, 0.95, 1.0])
+        for short, long_, arg in (('pdf', 'probability_density', P), ('cdf', 'cumulative_distribution', P), ('ppf', 'percent_point', Q)):
+            def call(name):
+                try:
+                    return ('ok', np.asarray(getattr(m, name)(arg.copy()), dtype=float).tolist())
+                except Exception as ex:
+                    return ('err', type(ex).__name__)
+            a, b = call(short), call(long_)
+            same = a[0] == b[0] and (a[1] == b[1] or (a[0] == 'ok' and np.array_equal(np.array(a[1]), np.array(b[1]), equal_nan=True)))
+            if not same:
+                return f'{cname} [{state}]: {short}(...) gives {a} but {long_}(...) gives {b}'
+    return None
+
+
+ALIAS_CLASSES = ['GaussianUnivariate', 'UniformUnivariate', 'GammaUnivariate', 'BetaUnivariate', 'StudentTUnivariate', 'LogLaplace', 'TruncatedGaussian',
+                 'GaussianKDE', 'GaussianKDE(sample_size=20)', 'Univariate']
+
+
+def uni_alias(ctx):
+    for cname in ALIAS_CLASSES:
+        for state in ('fitted', 'constant', 'constant-then-data', 'data-then-constant', 'from_dict-constant', 'from_dict-fitted'):
+            if cname == 'GaussianKDE(sample_size=20)' and state.startswith('from_dict'):
+                continue        # F26s (known, C14): a nested dataset is stored
+            ctx.case(('alias', cname, state), None)
+            try:
+                why = uni_alias_replay(cname, state)
+            except Exception as ex:
+                why = f'oracle raised {type(ex).__name__}: {str(ex)[:120]}'
+            ctx.obligation(f'oracle:alias:{cname}:{state}', why is None, 'correspondence', why or '')
+            if why:
+                ctx.violation(f'search:alias-differs-from-long-name:{cname.split("(")[0]}:{state}', why,
+                              {'class': cname, 'state': state, 'repro': ('from vf.extra_oracles2 import uni_alias_replay\n'
+                                                                         f'why = uni_alias_replay({cname!r}, {state!r})\nprint(why)\nassert why is None\n')})
+
+
+def kde_long_replay(kind):
+    """GaussianKDE on long vectors: the answer for a point / a probability does not depend on the length of the batch it sits in"""
+    from copulas.univariate import GaussianKDE
+    rs = np.random.RandomState(6)
+    with np.errstate(all='ignore'):
+        if kind == 'cdf-large-product':            # len(X) * len(dataset) = 2000 * 9001 > 2**24
+            m = GaussianKDE()
+            m.fit(rs.normal(10.0, 2.0, 2000))
+            X = np.sort(rs.uniform(2.0, 18.0, 9001))[::-1].copy()
+            whole = np.asarray(m.cumulative_distribution(X), dtype=float)
+            alone = np.concatenate([np.asarray(m.cumulative_distribution(X[a:a + 700].copy()), dtype=float) for a in range(0, len(X), 700)])
+            what = 'cumulative_distribution'
+        elif kind == 'cdf-long-training':          # a long training sample, a few hundred query points
+            m = GaussianKDE()
+            m.fit(np.sort(rs.normal(0.0, 1.0, 60000)))
+            X = np.linspace(-3, 3, 301)
+            whole = np.asarray(m.cumulative_distribution(X), dtype=float)
+            alone = np.concatenate([np.asarray(m.cumulative_distribution(X[a:a + 50].copy()), dtype=float) for a in range(0, len(X), 50)])
+            what = 'cumulative_distribution'
+        else:                                      # percent_point of 20 001 probabilities (not a multiple of any power of two)
+            m = GaussianKDE()
+            m.fit(rs.normal(10.0, 2.0, 30))
+            X = rs.uniform(0.001, 0.999, 20001)
+            whole = np.asarray(m.percent_point(X), dtype=float)
+            idx = np.r_[0:30, 10000:10030, 20001 - 30:20001]
+            alone_part = np.asarray(m.percent_point(X[idx].copy()), dtype=float)
+            back = np.asarray(m.cumulative_distribution(whole), dtype=float)
+            k = int(np.nanargmax(np.abs(back - X)))
+            if abs(back[k] - X[k]) > 1e-6:
+                return (f'GaussianKDE.percent_point on 20001 probabilities: element {k} = {whole[k]!r} has cdf {back[k]!r}, not the requested {X[k]!r}')
+            if not np.allclose(whole[idx], alone_part, rtol=1e-9, atol=1e-12):
+                j = int(np.argmax(np.abs(whole[idx] - alone_part)))
+                return f'GaussianKDE.percent_point: lane {int(idx[j])} of a 20001-vector gives {whole[idx][j]!r}, the same probability in a short vector {alone_part[j]!r}'
+            return None
+    if not np.allclose(whole, alone, rtol=1e-10, atol=1e-13):
+        k = int(np.argmax(np.abs(whole - alone)))
+        return (f'GaussianKDE.{what} ({kind}): point {X[k]!r} evaluates to {whole[k]!r} inside the long batch and to {alone[k]!r} inside a short one '
+                f'(max |difference| {float(np.max(np.abs(whole - alone))):.3g})')
+    return None
+
+
+def kde_long(ctx):
+    for kind in ('cdf-large-product', 'cdf-long-training', 'ppf-long-vector'):
+        ctx.case(('kde-long', kind), {'size extreme': kind})
+        try:
+            why = kde_long_replay(kind)
+        except Exception as ex:
+            why = f'oracle raised {type(ex).__name__}: {str(ex)[:160]}'
+        ctx.obligation(f'oracle:kde-long:{kind}', why is None, 'correspondence', why or '')
+        if why:
+            ctx.violation(f'search:kde-long-vector:{kind}', why, {'kind': kind, 'repro': ('from vf.extra_oracles2 import kde_long_replay\n'
+                                                                                          f'why = kde_long_replay({kind!r})\nprint(why)\nassert why is None\n')})
+
+
+def kde_copy_replay(opts, how):
+    """the kernel estimate survives every way of copying the fitted object (pickle, deepcopy, save/load)"""
+    import copy
+    import os
+    import pickle
+    import tempfile
+    from copulas.univariate import GaussianKDE, Univariate
+    rs = np.random.RandomState(3)
+    x = np.concatenate([rs.normal(0, 1, 40), rs.normal(6, 0.5, 25)])
+    w = rs.uniform(0.2, 2.0, len(x))
+    kw = {'silverman': {'bw_method': 'silverman'}, 'weights': {'weights': w}, 'silverman+weights': {'bw_method': 'silverman', 'weights': w}, 'default': {}}[opts]
+    m = GaussianKDE(**kw)
+    P = np.linspace(-3, 8, 23)
+    with np.errstate(all='ignore'):
+        m.fit(x)
+        ref = np.asarray(m.probability_density(P), dtype=float)
+        if how == 'deepcopy':
+            c = copy.deepcopy(m)
+        elif how == 'pickle':
+            c = pickle.loads(pickle.dumps(m))
+        else:
+            fd, fn = tempfile.mkstemp(suffix='.pkl')
+            os.close(fd)
+            try:
+                m.save(fn)
+                c = (GaussianKDE if how == 'save-load' else Univariate).load(fn)
+            finally:
+                os.unlink(fn)
+        got = np.asarray(c.probability_density(P), dtype=float)
+        gc = np.asarray(c.cumulative_distribution(P), dtype=float)
+        rc = np.asarray(m.cumulative_distribution(P), dtype=float)
+    if not (np.array_equal(got, ref) and np.array_equal(gc, rc)):
+        k = int(np.argmax(np.abs(got - ref)))
+        return (f'GaussianKDE({opts}) copied by {how}: probability_density({P[k]!r}) = {got[k]!r}, the original answers {ref[k]!r} '
+                f'(relative difference {abs(got[k] - ref[k]) / max(abs(ref[k]), 1e-300):.3g})')
+    return None
+
+
+def kde_copy(ctx):
+    for opts in ('default', 'silverman', 'weights', 'silverman+weights'):
+        for how in ('deepcopy', 'pickle', 'save-load', 'save-load-generic'):
+            ctx.case(('kde-copy', opts, how), None)
+            try:
+                why = kde_copy_replay(opts, how)
+            except Exception as ex:
+                why = f'oracle raised {type(ex).__name__}: {str(ex)[:160]}'
+            ctx.obligation(f'oracle:kde-copy:{opts}:{how}', why is None, 'correspondence', why or '')
+            if why:
+                ctx.violation(f'search:kde-copy-not-kernel-estimate:{opts}:{how}', why,
+                              {'options': opts, 'how': how, 'repro': ('from vf.extra_oracles2 import kde_copy_replay\n'
+                                                                      f'why = kde_copy_replay({opts!r}, {how!r})\nprint(why)\nassert why is None\n')})
+
+
+def gm_long_sample_replay():
+    """GaussianMultivariate.sample(n) with n = 60 001 and a KDE marginal: the sample carries the marginal's mass outside the training range"""
+    import pandas as pd
+    from copulas.multivariate import GaussianMultivariate
+    from copulas.univariate import GaussianKDE, GaussianUnivariate
+    rs = np.random.RandomState(19)
+    X = pd.DataFrame({'k': rs.normal(0.0, 1.0, 30), 'g': rs.normal(5.0, 2.0, 30)})
+    m = GaussianMultivariate(distribution={'k': GaussianKDE, 'g': GaussianUnivariate}, random_state=2)
+    with np.errstate(all='ignore'):
+        m.fit(X)
+        n = 60001
+        S = m.sample(n)
+        u = m.univariates[0]
+        lo, hi = float(X['k'].min()), float(X['k'].max())
+        p_out = float(u.cumulative_distribution(np.array([lo]))[0]) + 1.0 - float(u.cumulative_distribution(np.array([hi]))[0])
+    if list(S.columns) != ['k', 'g'] or len(S) != n or S.isna().any().any():
+        return f'sample({n}): schema {list(S.columns)} x {len(S)}, missing values {bool(S.isna().any().any())}'
+    frac = float(((S['k'] < lo) | (S['k'] > hi)).mean())
+    band = 6.0 * np.sqrt(max(p_out * (1 - p_out), 1e-9) / n) + 1e-4        # > 6 sigma of the binomial proportion
+    if abs(frac - p_out) > band:
+        return (f'sample({n}) with a GaussianKDE marginal: the fitted marginal has {p_out:.4f} of its mass outside the training range [{lo:.3f}, {hi:.3f}] '
+                f'but {frac:.4f} of the sampled column lies there (6-sigma band {band:.4f})')
+    return None
+
+
+def gm_long_sample(ctx):
+    ctx.case(('gm-long-sample',), {'rows': 60001})
+    try:
+        why = gm_long_sample_replay()
+    except Exception as ex:
+        why = f'oracle raised {type(ex).__name__}: {str(ex)[:160]}'
+    ctx.obligation('oracle:gm-long-sample', why is None, 'correspondence', why or '')
+    if why:
+        ctx.violation('search:long-sample-marginal-tails', why, {'repro': 'from vf.extra_oracles2 import gm_long_sample_replay\nwhy = gm_long_sample_replay()\nprint(why)\nassert why is None\n'})
+
+
+# ======================================================================================================================
+# round 5 - vines: positional constructor arguments, tables with many repeated rows, very short tables
+# ======================================================================================================================
+def vine_api_replay(kind, vtype):
+    import pandas as pd
+    from scipy.stats import kendalltau
+    from copulas.bivariate import select_copula
+    from copulas.multivariate import VineCopula
+    from . import vinestruct as VS
+    rs = np.random.RandomState(29)
+    with np.errstate(all='ignore'):
+        if kind == 'positional-seed':
+            z = rs.multivariate_normal(np.zeros(5), 0.5 * np.ones((5, 5)) + 0.5 * np.eye(5), 70)
+            X = pd.DataFrame(z, columns=list('abcde'))
+            for seed in (0, 1, 7, 42):
+                v = VineCopula(vtype, seed)                      # documented signature: (vine_type, random_state=None)
+                v.fit(X)
+                if len(v.trees) != 3:
+                    return f"VineCopula({vtype!r}, {seed}).fit(5-column table) holds {len(v.trees)} trees; min(d - 1, 3) = 3 (is the second positional argument still the seed?)"
+                w = VineCopula(vtype, random_state=seed)
+                w.fit(X)
+                a, b = np.asarray(v.sample(3), dtype=float), np.asarray(w.sample(3), dtype=float)
+                if not np.array_equal(a, b, equal_nan=True):
+                    return f"VineCopula({vtype!r}, {seed}) and VineCopula({vtype!r}, random_state={seed}) sample different rows"
+            return None
+        if kind == 'duplicated-rows':
+            d = 4
+            base = rs.multivariate_normal(np.zeros(d), [[1, .7, .2, -.3], [.7, 1, .1, 0], [.2, .1, 1, .5], [-.3, 0, .5, 1]], 30)
+            rep = np.repeat(base[[2, 11, 23]] * np.array([1.0, -2.5, 3.0, 1.5]) + np.array([3, -3, 2, -2.0]), 25, axis=0)
+            X = pd.DataFrame(np.vstack([base, rep]), columns=list('abcd'))
+            v = VineCopula(vtype, random_state=1)
+            v.fit(X, truncated=1)
+            km = X.corr(method='kendall').to_numpy()
+            tm = np.asarray(v.tau_mat, dtype=float)
+            if tm.shape != km.shape or not np.allclose(tm, km, atol=1e-12):
+                return (f"VineCopula({vtype!r}) on a table with many repeated rows: tau_mat[0,1] = {tm[0, 1]!r} but Kendall's tau of the TABLE's columns is {km[0, 1]!r}")
+            if vtype == 'regular':
+                probs = VS.py_validate(vtype, d, 1, VS.edges_of(v.trees), km)
+                if probs:
+                    return f"VineCopula('regular') on a table with many repeated rows: {probs[:2]}"
+            return None
+        if kind == 'short-table':
+            for n in (6, 8, 9):
+                g = np.sort(rs.uniform(size=n))
+                X = pd.DataFrame({'a': g + 0.05 * rs.normal(size=n), 'b': g ** 2 + 0.05 * rs.normal(size=n), 'c': rs.uniform(size=n)})
+                v = VineCopula(vtype, random_state=1)
+                try:
+                    v.fit(X, truncated=1)
+                except ValueError:
+                    continue                                   # a degenerate short table may be refused
+                for e in v.trees[0].edges:
+                    want = select_copula(np.column_stack([v.u_matrix[:, e.L], v.u_matrix[:, e.R]]))
+                    if getattr(e.name, 'name', e.name) != want.copula_type.name or not (e.theta == want.theta or abs(e.theta - want.theta) <= 1e-9 * (1 + abs(want.theta))):
+                        return (f"VineCopula({vtype!r}) on a {n}-row table: edge ({e.L},{e.R}) carries {getattr(e.name, 'name', e.name)}(theta={e.theta!r}) but select_copula of "
+                                f"the edge's two input columns returns {want.copula_type.name}(theta={want.theta!r})")
+            return None
+    raise ValueError(kind)
+
+
+def vine_api(ctx, kinds):
+    for kind in kinds:
+        for vt in ('center', 'direct', 'regular'):
+            ctx.case(('vine-api', kind, vt), {'case': kind, 'vine': vt})
+            try:
+                why = vine_api_replay(kind, vt)
+            except Exception as ex:
+                why = f'oracle raised {type(ex).__name__}: {str(ex)[:160]}'
+            ctx.obligation(f'oracle:vine-api:{kind}:{vt}', why is None, 'correspondence', why or '')
+            if why:
+                ctx.violation(f'search:vine:{kind}:{vt}', why, {'case': kind, 'vine': vt,
+                                                               'repro': ('from vf.extra_oracles2 import vine_api_replay\n'
+                                                                         f'why = vine_api_replay({kind!r}, {vt!r})\nprint(why)\nassert why is None\n')})
+
+
+# ======================================================================================================================
+# round 5 - select_copula through every documented entry point; a long table; conditional law of a model rebuilt by from_dict with exact zeros;
+# a one-column Gaussian copula
+# ======================================================================================================================
+def select_entry_points_replay(kind):
+    import warnings
+    import copulas.bivariate as B
+    rs = np.random.RandomState(8)
+    with np.errstate(all='ignore'), warnings.catch_warnings():
+        warnings.simplefilter('ignore')
+        if kind == 'entry-points':
+            src = B.Bivariate(copula_type='clayton', random_state=3)
+            src.theta, src.tau = 4.0, 4.0 / 6.0
+            Xp = np.asarray(src.sample(1500), dtype=float)
+            Xn = np.column_stack([Xp[:, 0], 1.0 - Xp[:, 1]])
+            for X, label in ((Xp, 'Clayton-like'), (Xn, 'negative tau')):
+                ref = B.select_copula(X.copy())
+                want = (type(ref).__name__, float(ref.tau), float(ref.theta))
+                entries = {'Bivariate.select_copula': B.Bivariate.select_copula, 'Frank.select_copula': B.Frank.select_copula,
+                           'Clayton.select_copula': B.Clayton.select_copula, 'Gumbel.select_copula': B.Gumbel.select_copula,
+                           'Frank().select_copula': B.Frank().select_copula}
+                for nm, fn in entries.items():
+                    try:
+                        r = fn(X.copy())
+                        got = (type(r).__name__, float(r.tau), float(r.theta))
+                    except Exception as ex:
+                        got = ('raises', type(ex).__name__, str(ex)[:60])
+                    if got != want:
+                        return f'{nm}(X) on {label} data gives {got}; copulas.bivariate.select_copula(X) gives {want}'
+            return None
+        if kind == 'long-table':
+            a = B.Bivariate(copula_type='clayton', random_state=5)
+            a.theta, a.tau = 1.4, 1.4 / 3.4
+            Z = np.asarray(a.sample(36000), dtype=float)
+            W = 1.0 - np.asarray(a.sample(24001), dtype=float)
+            X = np.vstack([Z, W])
+            st0 = np.random.get_state()
+            outs = []
+            for _ in range(3):
+                r = B.select_copula(X.copy())
+                outs.append((type(r).__name__, float(r.tau), float(r.theta)))
+            st1 = np.random.get_state()
+            if len(set(outs)) != 1:
+                return f'select_copula on one table of {len(X)} rows returns {outs} on three calls: the choice is not a function of X'
+            if not (st0[0] == st1[0] and np.array_equal(st0[1], st1[1]) and st0[2:] == st1[2:]):
+                return f'select_copula on a table of {len(X)} rows consumed the global numpy generator'
+            return None
+    raise ValueError(kind)
+
+
+def select_entry_points(ctx):
+    for kind in ('entry-points', 'long-table'):
+        ctx.case(('select-entry', kind), {'case': kind})
+        try:
+            why = select_entry_points_replay(kind)
+        except Exception as ex:
+            why = f'oracle raised {type(ex).__name__}: {str(ex)[:160]}'
+        ctx.obligation(f'oracle:select-copula:{kind}', why is None, 'witness-search', why or '')
+        if why:
+            ctx.violation(f'oracle:select-copula:{kind}', why, {'case': kind, 'repro': ('from vf.extra_oracles2 import select_entry_points_replay\n'
+                                                                                         f'why = select_entry_points_replay({kind!r})\nprint(why)\nassert why is None\n')})
+
+
+def gm_from_dict_conditional_replay(kind):
+    """conditional law of a model REBUILT from a dict whose correlation has exact zeros (banded / block matrices): mean S12 S22^-1 z and Schur
+    complement, by label, against an independent computation"""
+    import pandas as pd
+    from scipy.stats import norm
+    from copulas.multivariate import GaussianMultivariate
+    from .extra_oracles import _capture_cond
+    cols = ['a', 'b', 'c'] if kind != 'block4' else ['a', 'b', 'c', 'd']
+    R = {'banded3': [[1, .5, 0], [.5, 1, .5], [0, .5, 1]], 'banded3-neg': [[1, -.6, 0], [-.6, 1, .4], [0, .4, 1]],
+         'block4': [[1, 0, .3, 0], [0, 1, .5, .2], [.3, .5, 1, 0], [0, .2, 0, 1]]}[kind]
+    unis = [{'type': 'copulas.univariate.gaussian.GaussianUnivariate', 'loc': 1.0 * i, 'scale': 1.0 + i} for i in range(len(cols))]
+    m = GaussianMultivariate.from_dict({'type': 'copulas.multivariate.gaussian.GaussianMultivariate', 'columns': cols, 'correlation': R, 'univariates': unis})
+    m.set_random_state(3)
+    R = np.array(R, dtype=float)
+    for given in ({'b': 2.0, 'c': 0.5}, {'c': 3.0, 'b': -1.0}, {'a': 0.2}, {'c': 1.0, 'a': -0.5}):
+        if any(g not in cols for g in given):
+            continue
+        with np.errstate(all='ignore'):
+            _, rec = _capture_cond(m, 3, dict(given))
+            _, rec2 = _capture_cond(m, 3, pd.Series(given))
+        gi = [cols.index(c) for c in cols if c in given]
+        fi = [i for i in range(len(cols)) if i not in gi]
+        z = np.array([(given[cols[i]] - unis[i]['loc']) / unis[i]['scale'] for i in gi])
+        z = norm.ppf(np.clip(norm.cdf(z), 2.0 ** -23, 1 - 2.0 ** -23))
+        S11, S12, S22 = R[np.ix_(fi, fi)], R[np.ix_(fi, gi)], R[np.ix_(gi, gi)]
+        mean = S12 @ np.linalg.solve(S22, z)
+        cov = S11 - S12 @ np.linalg.solve(S22, S12.T)
+        for r_, how in ((rec, 'dict'), (rec2, 'Series')):
+            if 'mean' not in r_ or np.asarray(r_['mean']).shape != mean.shape or not np.allclose(r_['mean'], mean, atol=1e-9) or not np.allclose(r_['cov'], cov, atol=1e-9):
+                return (f'model rebuilt by from_dict with correlation {R.tolist()}: sample(conditions={given} as {how}) draws the free columns '
+                        f'{[cols[i] for i in fi]} from mean {np.asarray(r_.get("mean")).tolist()}, covariance {np.asarray(r_.get("cov")).tolist()}; '
+                        f'S12 S22^-1 z = {mean.tolist()}, Schur complement = {cov.tolist()}')
+    return None
+
+
+def gm_from_dict_conditional(ctx):
+    for kind in ('banded3', 'banded3-neg', 'block4'):
+        ctx.case(('from_dict-conditional', kind), {'correlation': kind})
+        try:
+            why = gm_from_dict_conditional_replay(kind)
+        except Exception as ex:
+            why = f'oracle raised {type(ex).__name__}: {str(ex)[:160]}'
+        ctx.obligation(f'oracle:from_dict-conditional:{kind}', why is None, 'correspondence', why or '')
+        if why:
+            ctx.violation(f'oracle:conditional-law:from_dict:{kind}', why, {'kind': kind, 'repro': ('from vf.extra_oracles2 import gm_from_dict_conditional_replay\n'
+                                                                                                     f'why = gm_from_dict_conditional_replay({kind!r})\nprint(why)\nassert why is None\n')})
